@@ -17,7 +17,7 @@ RULE = ('cells = (20 named (biort,qshift) pairs, J in 1..5, HxW from 2..37 incl.
 ASSUMPTIONS = ['float64; tolerance 1e-10 * analysis gain * synthesis gain * max|x|', 'sides <= 37, J <= 5']
 TIMEOUT = {'quick': 900, 'thorough': 3300}
 WORKER_BUDGET = {'quick': 600, 'thorough': 2700}
-MIN_HELD = {'quick': 400, 'thorough': 2000}
+MIN_HELD = {'quick': 400, 'thorough': 63000}
 
 
 def cells(tier, seed):
